@@ -343,7 +343,61 @@ func checkC17(e *core.Env) {
 		rec(depth, nil)
 	}
 	e.Sample(map[string]any{"configs": caseNo, "example": "base=grpc.ClientConn layers(inner..outer)=truefalse,falsetrue, behaviour=alter@1: stream call -> hits [1], cc must be the real ClientConn"})
-}
+
+	// what lies under a wrapper may change between calls (a channel that connects on first use): the connection
+	// argument is worked out per call
+	for depth := 1; depth <= 3; depth++ {
+		lazy := &lazyConn{cur: &fakeBase{rec: &c17rec{}, err: errors.New("not connected yet")}}
+		var seen []*grpc.ClientConn
+		var top grpc.ClientConnInterface = lazy
+		for k := 0; k < depth; k++ {
+			top = grpchan.InterceptClientConn(top, func(ctx context.Context, method string, req, reply interface{}, cc *grpc.ClientConn, invoker grpc.UnaryInvoker, opts ...grpc.CallOption) error {
+				seen = append(seen, cc)
+				return invoker(ctx, method, req, reply, cc, opts...)
+			}, func(ctx context.Context, desc *grpc.StreamDesc, cc *grpc.ClientConn, method string, streamer grpc.Streamer, opts ...grpc.CallOption) (grpc.ClientStream, error) {
+				seen = append(seen, cc)
+				return streamer(ctx, desc, cc, method, opts...)
+			})
+		}
+		for step, want := range []*grpc.ClientConn{nil, realCC, realCC} {
+			if step == 1 {
+				lazy.cur = realCC
+			}
+			seen = nil
+			cctx, cancel := context.WithCancel(context.Background())
+			if step == 2 {
+				st, err := top.NewStream(cctx, ServerStream.StreamDesc(), ServerStream.Method())
+				if err == nil && st != nil {
+					st.CloseSend()
+				}
+			} else {
+				top.Invoke(cctx, Unary.Method(), &tpb.Message{}, new(tpb.Message))
+			}
+			cancel()
+			e.Eval(fmt.Sprintf("lazy|depth=%d|step=%d", depth, step), true)
+			for li, cc := range seen {
+				if cc != want {
+					e.Violate("call/lazy-base/cc", fmt.Sprintf("depth %d, call #%d: interceptor #%d (outermost first) got cc=%p, the connection under the wrappers at that moment is %p", depth, step+1, li, cc, want), nil)
+					break
+				}
+			}
+			if len(seen) != depth {
+				e.Violate("call/lazy-base/order", fmt.Sprintf("depth %d, call #%d: %d interceptor hits", depth, step+1, len(seen)), nil)
+			}
+		}
+	}
+	}
+
+	// lazyConn is a wrapper whose underlying channel changes over time.
+	type lazyConn struct{ cur grpc.ClientConnInterface }
+
+	func (l *lazyConn) Invoke(ctx context.Context, method string, req, reply interface{}, opts ...grpc.CallOption) error {
+	return l.cur.Invoke(ctx, method, req, reply, opts...)
+	}
+	func (l *lazyConn) NewStream(ctx context.Context, desc *grpc.StreamDesc, method string, opts ...grpc.CallOption) (grpc.ClientStream, error) {
+	return l.cur.NewStream(ctx, desc, method, opts...)
+	}
+	func (l *lazyConn) Unwrap() grpc.ClientConnInterface { return l.cur }
 
 type c17TagKey struct{}
 
